@@ -50,7 +50,7 @@ class Ctx:
         self.coverage = {}
         self.assumptions = []
         self.level = "proof"
-        self.budget_s = float(os.environ.get("VERIF_BUDGET_S", "60" if tier == "quick" else "600"))
+        self.budget_s = float(os.environ.get("VERIF_BUDGET_S", "70" if tier == "quick" else "600"))
 
     def elapsed(self):
         return time.time() - self.t0
@@ -190,15 +190,32 @@ def source_tie(ctx: Ctx):
     elif not failed:
         # is the translator blind? (only meaningful on a tree it can translate): every edit of a fixed list, applied
         # alone to a scratch copy of the files, must change what it derives
-        a_, d_, blind = srcgen.selftest(repo)
-        st = dict(edits_applied=a_, noticed=d_)
-        if a_ != d_:
-            raise RuntimeError(f"the source translator did not notice {blind}")
-        # … and is it touchy? edits that change nothing the code does must leave every script as it is
-        ha, hs, hc = srcgen.harmless(repo)
-        st.update(harmless_edits_applied=ha, harmless_left_unchanged=hs)
-        if ha != hs:
-            raise RuntimeError(f"harmless edits changed the derived scripts: {hc}")
+        # (deterministic in the translator and the sources it reads: computed once per such pair, kept next to the
+        # build output, re-used by the other checks of the same run)
+        import hashlib
+        h = hashlib.sha256(open(srcgen.__file__, "rb").read())
+        for rel in sorted(srcgen._all_sources(repo)):
+            h.update(rel.encode() + b"\0" + open(os.path.join(repo, rel), "rb").read())
+        cache = os.path.join(VERIF, "out", f".translator_selftest_{h.hexdigest()[:24]}.json")
+        if os.path.exists(cache):
+            st = json.load(open(cache))
+        else:
+            a_, d_, blind = srcgen.selftest(repo)
+            st = dict(edits_applied=a_, noticed=d_)
+            if a_ != d_:
+                raise RuntimeError(f"the source translator did not notice {blind}")
+            # … and is it touchy? edits that change nothing the code does must leave every script as it is
+            ha, hs, hc = srcgen.harmless(repo)
+            st.update(harmless_edits_applied=ha, harmless_left_unchanged=hs)
+            if ha != hs:
+                raise RuntimeError(f"harmless edits changed the derived scripts: {hc}")
+            try:
+                os.makedirs(os.path.dirname(cache), exist_ok=True)
+                with open(cache + ".tmp", "w") as f:
+                    json.dump(st, f)
+                os.replace(cache + ".tmp", cache)
+            except OSError:
+                pass
     ctx.coverage["source_tie"] = dict(scripts=rows, translator="harness/srcgen.py", translator_selftest=st,
                                       checker_cmd=f"lake env lean <Gen.x = Expected.x by decide for {names}>")
     return failed
